@@ -14,6 +14,8 @@ Proof of mechanism + bounded stand-in:
                        parameters of Environment.__init__ (loader None, cache_size 0, auto_reload False, bytecode_cache None); defaults agree.
   C13.spontaneous      get_spontaneous_environment: cls(*args) with only `shared` set afterwards.
   C13.config_check     _environment_config_check returns its argument unchanged and rejects only documented misconfigurations.
+  C13.balancing_guard  table on the real Lexer.tokeniter: the end tokens deferred while brackets are open include variable_end, block_end
+                       and linestatement_end (a tag may be wrapped inside brackets in every form).
   C13.bounded.delims   stand-in: a fixed corpus of generated templates translated into each delimiter family and into line-statement
                        form, rendered interleaved in one process through Environment, Template(...) and overlay chains; outputs agree and
                        previously created environments keep rendering as before.
@@ -132,8 +134,26 @@ class Gen:
                     lines.append((ind, "tag", "else"))
                     lines += self.body(depth + 1, in_loop, ind)
                 lines.append((ind, "tag", "endfor"))
-            elif k < 0.8:
+            elif k < 0.76:
                 lines.append((ind, "tag", "set v%d = %s" % (r.randint(0, 2), self.expr(in_loop))))
+            elif k < 0.8:
+                # a whole-line tag whose expression is wrapped over 2-3 lines inside open brackets (list, call, dict literal): a line statement
+                # continues to the line on which the brackets are balanced again
+                pad = ind + "      "
+                which = r.randrange(4)
+                if which == 0:
+                    lines.append((ind, "tag", "for i in [10,\n%s20,\n%s30]" % (pad, pad)))
+                    lines += self.body(depth + 1, True, ind)
+                    lines.append((ind, "tag", "endfor"))
+                elif which == 1:
+                    lines.append((ind, "tag", "set v%d = {'a': x,\n%s'b': 2}['b']" % (r.randint(0, 2), pad)))
+                elif which == 2:
+                    lines.append((ind, "tag", "if (x,\n%sy)|length > 1" % pad))
+                    lines += self.body(depth + 1, in_loop, ind)
+                    lines.append((ind, "tag", "endif"))
+                else:
+                    lines.append((ind, "tag", "set v%d = range(1,\n%s3)|list|join(\n%s'+')" % (r.randint(0, 2), pad, pad)))
+                    lines.append((ind, "text", ["joined", ("var", "v0 ~ v1 ~ v2")]))
             elif k < 0.86:
                 lines.append((ind, "comment", "a whole line note"))
             elif k < 0.92:
@@ -379,7 +399,7 @@ def bounded_tasks():
     for k in range(DELIM_SHARDS):
         t = FnTask(PROP, f"C13.bounded.delims[{k}]", bounded_delims(k), kind="bounded", replay_fn=replay_delims)
         t.bound_text = (f"fixed corpus of {CORPUS_SIZE} seeded generated templates (shard {k} of {DELIM_SHARDS}; quick tier: every second one): nested if/else, for/else, "
-                        "set, macro, filter, raw, whole-line and inline tags with -/+ modifiers, comments; translated into 6 delimiter families (default, <% %>/<%= %>, "
+                        "set, macro, filter, raw, whole-line tags wrapped over 2-3 lines inside open brackets, inline tags with -/+ modifiers, comments; translated into 6 delimiter families (default, <% %>/<%= %>, "
                         "<? ?>/${ }, shared-prefix {%% %%}, [% %]/[[ ]], <<% %>>/<< >>) under 8 (trim, lstrip, keep_trailing_newline, newline_sequence) settings, into "
                         "line-statement form (# / ##, % / //) under trim+lstrip, through Environment, Template(...), overlay and overlay chains, interleaved in "
                         "one process (> 50 lexer configurations, so the lexer LRU cache evicts); first-created environments re-rendered at the end")
@@ -1389,10 +1409,61 @@ def vc_tasks():
     return ts
 
 
+def balancing_guard(task, tier, seed):
+    """table on the real Lexer.tokeniter: while brackets are open (`balancing_stack` non-empty) a match of an END rule is skipped, so a
+    tag may be wrapped over lines inside (), [] or {} in EVERY form - the deferred token set must contain variable_end, block_end and
+    linestatement_end (otherwise the line-statement form of a wrapped tag ends at the first line break while the block form does not)"""
+    t0 = time.time()
+    node, _ = extract.function_ast(L.Lexer.tokeniter)
+    guards = []
+    for n in ast.walk(node):
+        if isinstance(n, ast.If) and isinstance(n.test, ast.BoolOp) and isinstance(n.test.op, ast.And) and len(n.body) == 1 and isinstance(n.body[0], ast.Continue):
+            names = [v for v in n.test.values if isinstance(v, ast.Name)]
+            cmps = [v for v in n.test.values if isinstance(v, ast.Compare) and len(v.ops) == 1 and isinstance(v.ops[0], ast.In) and isinstance(v.comparators[0], (ast.Tuple, ast.Set, ast.List))]
+            if names and cmps and any(x.id == "balancing_stack" for x in names):
+                guards.append(cmps[0])
+    if len(guards) != 1:
+        return [Res("C13.balancing_guard", "unknown", "table", time.time() - t0, f"{len(guards)} statements of the shape `if balancing_stack and tokens in (...): continue` in tokeniter", "table")]
+    vals = set()
+    for e in guards[0].comparators[0].elts:
+        if isinstance(e, ast.Name) and e.id in vars(L):
+            vals.add(vars(L)[e.id])
+        elif isinstance(e, ast.Constant):
+            vals.add(e.value)
+    need = {L.TOKEN_VARIABLE_END, L.TOKEN_BLOCK_END, L.TOKEN_LINESTATEMENT_END}
+    ok = need <= vals
+    return [Res("C13.balancing_guard", "discharged" if ok else "refuted", "table", time.time() - t0,
+                f"end tokens deferred while brackets are open: {sorted(vals)}" + ("" if ok else f"; missing {sorted(need - vals)}"), "table", None if ok else {"missing": sorted(need - vals)})]
+
+
+def replay_balancing_guard(w):
+    """native: a tag wrapped inside open brackets renders alike as block tag, variable tag and line statement"""
+    e_block = jinja2.Environment(trim_blocks=True, lstrip_blocks=True)
+    e_line = jinja2.Environment(trim_blocks=True, lstrip_blocks=True, line_statement_prefix="#", line_comment_prefix="##")
+    cases = [("{% for i in [10,\n   20,\n   30] %}\n{{ i }}\n{% endfor %}\n", "# for i in [10,\n   20,\n   30]\n{{ i }}\n# endfor\n"),
+             ("{% set v = {'a': 1,\n 'b': 2}['b'] %}\n{{ v }}", "# set v = {'a': 1,\n 'b': 2}['b']\n{{ v }}"),
+             ("{% if (1,\n 2)|length > 1 %}\nyes\n{% endif %}", "# if (1,\n 2)|length > 1\nyes\n# endif"),
+             ("{{ [1,\n 2]|join('%}') }}{{ {'a':\n '}}'}['a'] }}", None)]
+    bad = []
+    for a, b in cases:
+        outs = []
+        for env, src in ((e_block, a), (e_line, b), (e_line, a)):
+            if src is None:
+                continue
+            try:
+                outs.append(env.from_string(src).render())
+            except Exception as ex:  # noqa
+                outs.append(f"<{type(ex).__name__}: {ex}>")
+        if len(set(outs)) != 1 or outs[0].startswith("<"):
+            bad.append(f"{a!r} / {b!r} render {outs}")
+    return (bool(bad), "; ".join(bad[:2]) or "tags wrapped inside open brackets render alike in block, variable and line-statement form")
+
+
 def table_tasks():
     return [FnTask(PROP, "C13.template_ctor", template_ctor, kind="table", replay_fn=replay_template_ctor),
             FnTask(PROP, "C13.lexer_property", lexer_property, kind="table", replay_fn=replay_lexer_property),
-            FnTask(PROP, "C13.cache_key", cache_key, kind="table", replay_fn=replay_cache_key)]
+            FnTask(PROP, "C13.cache_key", cache_key, kind="table", replay_fn=replay_cache_key),
+            FnTask(PROP, "C13.balancing_guard", balancing_guard, kind="table", replay_fn=replay_balancing_guard)]
 
 
 TASKS = vc_tasks() + table_tasks() + bounded_tasks()
